@@ -157,12 +157,82 @@ example : let s := run exEnv exGenesis exHistory
     s'.bal 3 2 = s.bal 3 2 + s.dep 1 3 ∧ s'.bal 4 2 = s.bal 4 2 + s.dep 1 4 ∧ s.dep 1 4 = 400000000 := by
   decide +kernel
 
-/-- "the per-collateral total principal equals the sum of CDP debt up to interest rounding" — the part that
-    is proved: interest accrual multiplies the total principal by the period's factor and rounds half-to-even
-    once (error ≤ ½ unit per accrual), never decreases it when the factor is ≥ 1, touches no CDP and no
-    other type.  (The per-CDP side — each synchronisation rounds once more — and the exact bookkeeping of the
-    other operations are tied by the correspondence check, which evaluates
-    `|totalPrincipal − Σ synchronised debt| ≤ #roundings` on every real post-state.) -/
+/-! ### "the per-collateral total principal equals the sum of CDP debt up to interest rounding"
+
+  `sumDebt s ty` = Σ (principal + accumulated fees) over the CDPs of type `ty`.  The theorems below give, for
+  every operation, how the total principal and the debt side move.  They move by the same amounts except for
+  the interest terms: an accrual adds `round(f·T) − T` to the total (one half-even rounding, error ≤ ½), every
+  synchronisation of a CDP (`SynchronizeInterest` inside the user operations, one iteration of the bulk loop)
+  adds `round(d·quo(G, g)) − d` to that CDP — that is the "interest rounding" of the prose — and the clamp of
+  `DecrementTotalPrincipal` at zero can only bind when the total is already below the debt side.
+  What is NOT proved is a closed bound on the accumulated difference over a history (it depends on the
+  amounts: each `quo(G, g)` carries a relative error of 10⁻¹⁸); the correspondence check evaluates
+  `|total − Σ synchronised debt| ≤ #roundings` on every real post-state instead. -/
+
+/-- create: both sides grow by the principal (no interest term) -/
+theorem C04_total_principal_create {E : Env} {g : Int} {now : Int} {s s' : St} {owner : Acct} {ty : Nat} {c : Int}
+    {cd : Denom} {p : Int} {pd : Denom} (hI : Inv E g s) (h : create E now s owner ty c cd p pd = .ok s') :
+    (∀ t, s'.tprin t = s.tprin t + (if t = ty then p else 0)) ∧
+    ∀ t, sumDebt s' t = sumDebt s t + (if t = ty then p else 0) := create_drift hI h
+
+/-- deposit: total untouched; debt side + the interest synchronised on the CDP -/
+theorem C04_total_principal_deposit {E : Env} {g : Int} {now : Int} {s s' : St} {owner depositor : Acct} {ty : Nat}
+    {c : Int} {cd : Denom} (hI : Inv E g s) (h : deposit E now s owner depositor ty c cd = .ok s') :
+    ∃ id c0 s1 c1, findCdp s owner ty = some (id, c0) ∧ syncInterest E now s id c0 = .ok (s1, c1) ∧
+      s'.tprin = s.tprin ∧ ∀ t, sumDebt s' t = sumDebt s t + (if t = ty then c1.fees - c0.fees else 0) :=
+  deposit_drift hI h
+
+/-- withdraw: as deposit -/
+theorem C04_total_principal_withdraw {E : Env} {g : Int} {now : Int} {s s' : St} {owner depositor : Acct} {ty : Nat}
+    {c : Int} {cd : Denom} (hI : Inv E g s) (h : withdraw E now s owner depositor ty c cd = .ok s') :
+    ∃ id c0 s1 c1, findCdp s owner ty = some (id, c0) ∧ syncInterest E now s id c0 = .ok (s1, c1) ∧
+      s'.tprin = s.tprin ∧ ∀ t, sumDebt s' t = sumDebt s t + (if t = ty then c1.fees - c0.fees else 0) :=
+  withdraw_drift hI h
+
+/-- draw: both sides + the drawn amount; debt side + the synchronised interest -/
+theorem C04_total_principal_draw {E : Env} {g : Int} {now : Int} {s s' : St} {owner : Acct} {ty : Nat} {p : Int}
+    {pd : Denom} (hI : Inv E g s) (h : draw E now s owner ty p pd = .ok s') :
+    ∃ id c0 s1 c1, findCdp s owner ty = some (id, c0) ∧ syncInterest E now s id c0 = .ok (s1, c1) ∧
+      (∀ t, s'.tprin t = s.tprin t + (if t = ty then p else 0)) ∧
+      ∀ t, sumDebt s' t = sumDebt s t + (if t = ty then c1.fees - c0.fees + p else 0) := draw_drift hI h
+
+/-- repay (partial, exact or over-payment; CDP updated or closed): with `amt` = the fee + principal payment
+    actually taken, total − `amt` (clamped at 0), debt side + synchronised interest − `amt` -/
+theorem C04_total_principal_repay {E : Env} {g : Int} {now : Int} {s s' : St} {owner : Acct} {ty : Nat} {pay : Int}
+    {pd : Denom} (hI : Inv E g s) (h : repay E now s owner ty pay pd = .ok s') :
+    ∃ id c0 s1 c1, findCdp s owner ty = some (id, c0) ∧ syncInterest E now s id c0 = .ok (s1, c1) ∧
+      (∀ t, s'.tprin t = if t = ty then
+          (if s.tprin ty - ((calcPayment (c1.prin + c1.fees) c1.fees pay).1 + (calcPayment (c1.prin + c1.fees) c1.fees pay).2) < 0 then 0
+           else s.tprin ty - ((calcPayment (c1.prin + c1.fees) c1.fees pay).1 + (calcPayment (c1.prin + c1.fees) c1.fees pay).2))
+        else s.tprin t) ∧
+      ∀ t, sumDebt s' t = sumDebt s t + (if t = ty then c1.fees - c0.fees -
+          ((calcPayment (c1.prin + c1.fees) c1.fees pay).1 + (calcPayment (c1.prin + c1.fees) c1.fees pay).2) else 0) :=
+  repay_drift hI h
+
+/-- keeper liquidation: total − synchronised debt of the CDP (clamped at 0); the CDP's recorded debt leaves the
+    debt side (i.e. + synchronised interest − synchronised debt) -/
+theorem C04_total_principal_liquidate {E : Env} {g : Int} {now : Int} {s s' : St} {keeper owner : Acct} {ty : Nat}
+    (hW : WF E) (hI : Inv E g s) (hk : (3 : Nat) ≤ keeper) (h : liquidate E now s keeper owner ty = .ok s') :
+    ∃ id c0 s1 c1, findCdp s owner ty = some (id, c0) ∧ syncInterest E now s id c0 = .ok (s1, c1) ∧
+      (∀ t, s'.tprin t = if t = ty then (if s.tprin ty - (c1.prin + c1.fees) < 0 then 0 else s.tprin ty - (c1.prin + c1.fees))
+          else s.tprin t) ∧
+      ∀ t, sumDebt s' t = sumDebt s t - (if t = ty then c0.prin + c0.fees else 0) := liquidate_drift hW hI hk h
+
+/-- block seizure of one CDP: both sides − the CDP's debt (total clamped at 0) -/
+theorem C04_total_principal_seize {E : Env} {s s' : St} {id : Nat} {c : Cdp} {deps : List (Acct × Int)}
+    (hlt : id < s.nextId) (ho : s.cdp id = some c) (h : seize E s id c deps = .ok s') :
+    (∀ t, s'.tprin t = if t = c.ty then (if s.tprin c.ty - (c.prin + c.fees) < 0 then 0 else s.tprin c.ty - (c.prin + c.fees))
+        else s.tprin t) ∧
+    ∀ t, sumDebt s' t = sumDebt s t - (if c.ty = t then c.prin + c.fees else 0) := seize_drift hlt ho h
+
+/-- one iteration of the bulk synchronisation: total untouched; debt side + the interest booked on that CDP -/
+theorem C04_total_principal_bulk_sync {E : Env} {g : Int} {s s' : St} {ty : Nat} {cp : CollParam} {gf : Dec}
+    {prev : Int} {id : Nat} (hI : Inv E g s) (h : syncOne E s ty cp gf prev id = .ok s') :
+    ∃ c, s.cdp id = some c ∧ c.ty = ty ∧ s'.tprin = s.tprin ∧
+      ((s' = s) ∨ ∀ t, sumDebt s' t = sumDebt s t + (if t = ty then bulkInterest gf c else 0)) := syncOne_drift hI h
+
+/-- interest accrual: the total principal is multiplied by the period's factor and rounded half-to-even once
+    (error ≤ ½ unit), never decreases for a factor ≥ 1, and no CDP record and no other type is touched -/
 theorem C04_total_principal_partial {now : Int} {s s' : St} {ty : Nat} {cp : CollParam} {f : Dec}
     (hf : P ≤ f.m) (h : accumulate now s ty cp f = .ok s') :
     s'.cdp = s.cdp ∧ s.tprin ty ≤ s'.tprin ty ∧
@@ -170,6 +240,11 @@ theorem C04_total_principal_partial {now : Int} {s s' : St} {ty : Nat} {cp : Col
       (2 * (s'.tprin ty * P - f.m * s.tprin ty) ≤ P ∧ 2 * (f.m * s.tprin ty - s'.tprin ty * P) ≤ P)) ∧
     (∀ t, t ≠ ty → s'.tprin t = s.tprin t) :=
   accumulate_tprin hf h
+
+/-- non-vacuity: in the example history the total principal and the debt side agree at the end
+    (no interest accrued: the only block uses factor 1) -/
+example : (run exEnv exGenesis exHistory).tprin 0 = 10500000 ∧ sumDebt (run exEnv exGenesis exHistory) 0 = 10500000 := by
+  decide +kernel
 
 /-- "Failed operations change nothing": in the model of (keeper ∘ baseapp) a message whose keeper call
     returns an error or panics leaves the state untouched -/
